@@ -1798,6 +1798,9 @@ vbi_dvb_mux_cor		(vbi_dvb_mux *		mx,
 			*sliced = s;
 			*sliced_left = s_left;
 			mx->cor_end = 0;
+			/* The frame is rejected as a whole, do not
+			   expect the rest of a raw line. */
+			mx->raw_samples_left = 0;
 			/* errno = err; */
 			return FALSE;
 		}
@@ -1806,6 +1809,7 @@ vbi_dvb_mux_cor		(vbi_dvb_mux *		mx,
 			*sliced = s;
 			*sliced_left = s_left;
 			mx->cor_end = 0;
+			mx->raw_samples_left = 0;
 			/* errno = VBI_ERR_BUFFER_OVERFLOW; */
 			return FALSE;
 		}
@@ -1988,11 +1992,15 @@ vbi_dvb_mux_feed		(vbi_dvb_mux *		mx,
 				   raw, sp,
 				   pts);
 	if (unlikely (0 != err)) {
+		/* The frame is rejected as a whole, do not
+		   expect the rest of a raw line. */
+		mx->raw_samples_left = 0;
 		/* errno = err; */
 		return FALSE;
 	}
 
 	if (unlikely (s_left > 0)) {
+		mx->raw_samples_left = 0;
 		/* errno = VBI_ERR_BUFFER_OVERFLOW; */
 		return FALSE;
 	}
